@@ -68,6 +68,29 @@ contract(
     note="fit(X) of a saving that returns one column per variable (ghost trait ghost_per_variable): evaluate has p columns",
 )
 
+
+# data-keyed costs: the fit token is a function of (configuration kind, data identity) -- used where the SAME configuration is fitted on
+# different data and the results are related (LocalAnomalyScore's pooled surroundings)
+contract(
+    target=FIT, variant="iface-data/BaseCost", assumed=True, level="A",
+    params={"self": "obj:~BaseCost", "self.ghost_datakeyed": "bool=True", "self.ghost_kind": "int", "X": "real[n,p]", "y": "none"},
+    modifies={"self._X": "=X", "self._is_fitted": "=True", "self.ghost_tok": "=FITTOK(self.ghost_kind, DATAID(X))", "self.ghost_n": "=n", "self.ghost_p": "=p",
+              "self.ghost_q": "int"},
+    returns="=self",
+    ensures={"q": "self.ghost_q >= 1 and self.ghost_q == QOF(self.ghost_kind, p)"},
+    note="fit(X) of a cost whose evaluate is a function of (its configuration, the fitted data, the cuts): the token is FITTOK(kind, data)",
+)
+for _cls in ("BaseCost",):
+    contract(
+        target=EVAL, variant=f"iface1l/{_cls}", assumed=True, level="A",
+        params={"self": f"obj:~{_cls}", "self._is_fitted": "bool=True", "self.min_size": "int", "self.ghost_tok": "int",
+                "self.ghost_n": "int", "self.ghost_q": "int", "cuts": "list[int]"},
+        raises={"ValueError": "not (len(cuts) == 2 and 0 <= cuts[0] and cuts[1] <= self.ghost_n and cuts[1] - cuts[0] >= self.min_size)"},
+        returns="real[1,self.ghost_q]",
+        ensures={"value": "forall(range(self.ghost_q), lambda j: result[0, j] == SC2(self.ghost_tok, cuts[0], cuts[1], j))"},
+        note="a cut given as the python list [s, e] is the one-row array [[s, e]] (as_2d_array); otherwise the 2-D interface assumption",
+    )
+
 # get_param_size of a user saving / cost: k parameters per variable (assumed interface: linear in p)
 for _cls in ("BaseSaving", "BaseCost"):
     contract(
